@@ -556,7 +556,7 @@ func TestC12(t *testing.T) {
 	maxN, exLen := 3, 3
 	if !rec.Quick() {
 		intervals = append(intervals, 300*time.Millisecond, 7*time.Second)
-		maxN, exLen = 5, 4
+		maxN, exLen = 6, 5
 	}
 	var extraSeqs [][]int
 	var bx func(cur []int)
